@@ -10,8 +10,8 @@ def jPStep (j : Json) : Except String PStep := jPair jRat (jAssoc jRat) j
 
 def jOpP (j : Json) : Except String OpP := do
   match ← jArr j with
-  | [.str "proto", steps, n] => pure (.protocol (← jList jPStep steps) ((← optJ jNat n).getD 10))
-  | [.str "ptc", steps, pts, rel] => pure (.protocolTC (← jList jPStep steps) (← jList jRat pts) (← jBool rel))
+  | [.str "proto", steps, n] => pure (.protocol (← jList jPStep steps) ((← optJ jNat n).getD Gen.defaultTimePointsPerStep))
+  | [.str "ptc", steps, pts, rel] => pure (.protocolTC (← jList jPStep steps) (← jList jRat pts) ((← optJ jBool rel).getD Gen.defaultRelative))
   | _ => do pure (.basic (← jOp j))
 
 def cutsP (ops : List OpP) : List (List OpP) :=
@@ -27,6 +27,6 @@ def handle (j : Json) : Except String Json := do
   pure (Json.mkObj [
     ("impl", Json.mkObj [("outs", .arr (ri.2.map excJ).toArray), ("snaps", .arr si.toArray)]),
     ("spec", Json.mkObj [("outs", .arr (rs.2.map excJ).toArray), ("snaps", .arr ss.toArray)]),
-    ("okhist", .bool (okHistP HSt.start ops))])
+    ("okhist", .bool (ops.all wfOp))])
 
 end Driver.H_c14
